@@ -53,6 +53,11 @@ func (c *Ctx) logoutXML(l lresp) []byte {
 		r.Issuer = &saml.Issuer{Value: *l.Issuer, Format: l.IssuerFormat}
 	}
 	el := r.Element()
+	// the instant in one of its legal lexical forms (fraction digits, a zone offset, no zone at all — which reads as UTC on any host)
+	if l.II != zeroTimeMs && el.SelectAttr("IssueInstant") != nil {
+		el.CreateAttr("IssueInstant", lexTime(l.II, c.n))
+		c.count("c18-issue-instant-form", fmt.Sprint(c.n%6))
+	}
 	if l.Kind == "other-root" {
 		el.Tag = "LogoutRequest"
 	}
